@@ -95,6 +95,12 @@ int main(int argc, char** argv) {
     // ranking input); with 4 GiB units the intermediate products exceed 2^63
     bool nested = (plugin == "kill_by_memory_size_or_growth" || plugin == "kill_by_swap_usage") && family < 7 && r.chance(40);
     if (nested) args["cgroup"] = "p/s*";
+    // descend: the same siblings are reached by RECURSION - the plugin is pointed at the top level ("*": p, marked
+    // prefer, and a much bigger unmarked q) and must rank p's children among themselves: thresholds that depend on
+    // the sibling set (size_threshold % of the siblings' total, the growing_size_percentile cut-off) are those of the
+    // set being ranked, not of the set ranked before it in the same tick
+    bool descend = nested && plugin == "kill_by_memory_size_or_growth" && r.chance(50);
+    if (descend) { args["cgroup"] = "*"; args["recursive"] = "true"; }
     std::vector<Sib> S(n);
     for (int again = 0; again < 50; again++) {
       bool onBoundary = false;
@@ -171,6 +177,16 @@ int main(int argc, char** argv) {
         fs.write("p", "memory.low", std::to_string(sumProt * U) + "\n");   // the children claim 2 * sumProt
         fs.write("p", "memory.min", "0\n");
         fs.write("p", "cgroup.events", "populated 1\n");
+        if (descend) {
+          fs.setXattr("p", "trusted.oomd_prefer", "1");
+          fs.mkcg("q");
+          fs.write("q", "memory.current", std::to_string((40 * sumUse + 1000) * U) + "\n");
+          fs.write("q", "memory.low", "0\n"); fs.write("q", "memory.min", "0\n");
+          fs.write("q", "cgroup.events", "populated 1\n");
+          fs.write("q", "cgroup.procs", "999\n");
+          fs.write("q", "memory.stat", "anon 1\nfile 1\npgscan 0\n");
+          fs.write("q", "memory.pressure", "some avg10=0.00 avg60=0.00 avg300=0.00 total=0\nfull avg10=0.00 avg60=0.00 avg300=0.00 total=0\n");
+        }
       }
       for (auto& s : S) {
         fs.mkcg(s.name);
@@ -218,7 +234,7 @@ int main(int argc, char** argv) {
     evEmit(J().str("e", "SReset").num("scn", scn).num("seed", (long long)seed));
     evEmit(J().str("e", "RankCase").str("U", std::to_string(U))
                .raw("P", J().str("plugin", plugin).num("thr", thr).num("P", P).num("rn", rn).num("rd", rd).boolean("biased", biased).num("sn", 1).num("sd", 2).done())
-               .raw("S", J::arr(sj)).boolean("nested", nested).num("gap", gapIdx).str("gapKind", gapKind).str("first", first).raw("args", [&] { std::vector<std::string> kv; for (auto& [k, v] : args) kv.push_back(J::quote(k + "=" + v)); return J::arr(kv); }()));
+               .raw("S", J::arr(sj)).boolean("nested", nested).boolean("descend", descend).num("gap", gapIdx).str("gapKind", gapKind).str("first", first).raw("args", [&] { std::vector<std::string> kv; for (auto& [k, v] : args) kv.push_back(J::quote(k + "=" + v)); return J::arr(kv); }()));
     evEmit(J().str("e", "SEnd"));
     ip().onOpened = nullptr; ip().onKill = nullptr; ip().onOpen = nullptr;
     ::unlink(meminfoPath.c_str());
